@@ -350,4 +350,14 @@ def interRef : Obj → Obj → ResB
   | .polyhedron B, .polygon P => interPolygonPolyhedron B P
   | .polygon P, .polyhedron B => interPolygonPolyhedron B P
   | .polyhedron A, .polyhedron B => interPolyhedronPolyhedron A B
+/-- the documentation's name for the type of a returned value -/
+def resTyOf : Option Obj → Dispatch.ResTy
+  | none => .none
+  | some (.flat (.point _)) => .point
+  | some (.flat (.line _)) => .line
+  | some (.flat (.plane _)) => .plane
+  | some (.flat (.seg _)) => .seg
+  | some (.flat (.halfline _)) => .halfline
+  | some (.polygon _) => .polygon
+  | some (.polyhedron _) => .polyhedron
 end G3D
